@@ -1,4 +1,5 @@
 import PV.Props.C12
+import PV.Lemmas.Tree.Natural
 /-!
 # C14 — every key/value is destroyed exactly once, at the call that takes it out of the tree
 
@@ -10,6 +11,13 @@ The destroy log of every call is part of the outputs that C12 proves equal to th
 What remains is the bookkeeping over whole histories.  Histories may contain inserts whose node allocation fails
 (`Op.insf`): what entered the tree is `entered cmp l ops`, which follows the spec state — such an insert hands its pair
 over only on the replace path (`failed_insert_owns_nothing`; `entered_eq_inserted` for histories without them).
+
+Last clause ("without notifiers the tree never frees or alters user keys and values"), for the model: the operations are
+NATURAL in the key and value objects (`run_natural`, `run_natural_values`): renaming every value object by any function
+`g` (and every key object by any comparator-preserving `h`) commutes with every history, for the spec and for the three
+variants — same shape, balance factors / colours, counts, flags, log order; the objects renamed.  So the operations never
+look inside a value, never change one, never make one up; of a key they learn only what the comparator says.
+`values_never_altered`: every object stored or shown after any history is literally one of the objects the caller passed.
 -/
 namespace PV.Tree
 open Std
@@ -116,6 +124,96 @@ theorem failed_insert_owns_nothing (k : κ) (v : ν) (l : List (κ × ν)) (ops 
   · simp only [entered, hf, Bool.false_eq_true, if_false, List.nil_append, e]
   · simp only [specRun, e, destroyed, List.nil_append]
   · simp only [specRun, e]
+
+/-! ### the tree never alters or fabricates user keys and values -/
+section natural
+variable {κ' ν' : Type} {cmp' : κ' → κ' → Ordering} {h : κ → κ'} {g : ν → ν'}
+
+/-- **naturality in the key and value objects.**  `h` renames key objects and preserves the comparator, `g` is ANY function on
+    value objects.  Running the renamed history on the renamed state gives the renamed result — for the spec and for the
+    plain BST literally, for AVL and red-black including whether the C code would dereference NULL (`none`).  `map` keeps
+    the shape, the stored balance factors / colours, `nnodes`, the flags and the order of every destroy log and visit
+    list; it only renames the objects. -/
+theorem run_natural (hc : ∀ a b, cmp' (h a) (h b) = cmp a b) (ops : List (Op κ ν)) :
+    (∀ l : List (κ × ν), specRun cmp' (mapPairs h g l) (ops.map (Op.map h g)) =
+      (mapPairs h g (specRun cmp l ops).1, (specRun cmp l ops).2.map (Out.map h g))) ∧
+    (∀ s : BT κ ν × Int, bstRun cmp' (s.1.map h g, s.2) (ops.map (Op.map h g)) =
+      (((bstRun cmp s ops).1.1.map h g, (bstRun cmp s ops).1.2), (bstRun cmp s ops).2.map (Out.map h g))) ∧
+    (∀ s : AT κ ν × Int, avlRun cmp' (s.1.map h g, s.2) (ops.map (Op.map h g)) =
+      (avlRun cmp s ops).map fun r => ((r.1.1.map h g, r.1.2), r.2.map (Out.map h g))) ∧
+    (∀ s : RT κ ν × Int, rbRun cmp' (s.1.map h g, s.2) (ops.map (Op.map h g)) =
+      (rbRun cmp s ops).map fun r => ((r.1.1.map h g, r.1.2), r.2.map (Out.map h g))) :=
+  ⟨fun l => specRun_map hc l ops, fun s => bstRun_map hc s ops, fun s => avlRun_map hc s ops, fun s => rbRun_map hc s ops⟩
+
+/-- the same for a single call (any state, any operation) -/
+theorem step_natural (hc : ∀ a b, cmp' (h a) (h b) = cmp a b) (op : Op κ ν) :
+    (∀ l : List (κ × ν), specStep cmp' (mapPairs h g l) (op.map h g) =
+      (mapPairs h g (specStep cmp l op).1, (specStep cmp l op).2.map h g)) ∧
+    (∀ s : BT κ ν × Int, bstStep cmp' (s.1.map h g, s.2) (op.map h g) =
+      (((bstStep cmp s op).1.1.map h g, (bstStep cmp s op).1.2), (bstStep cmp s op).2.map h g)) ∧
+    (∀ s : AT κ ν × Int, avlStep cmp' (s.1.map h g, s.2) (op.map h g) =
+      (avlStep cmp s op).map fun r => ((r.1.1.map h g, r.1.2), r.2.map h g)) ∧
+    (∀ s : RT κ ν × Int, rbStep cmp' (s.1.map h g, s.2) (op.map h g) =
+      (rbStep cmp s op).map fun r => ((r.1.1.map h g, r.1.2), r.2.map h g)) :=
+  ⟨fun l => specStep_map hc l op, fun s => bstStep_map hc s op, fun s => avlStep_map hc s op, fun s => rbStep_map hc s op⟩
+
+/-- **values are only moved around**: the keys and the comparator untouched (`h = id`), `g` any function on values, no
+    hypothesis at all -/
+theorem run_natural_values (g : ν → ν') (ops : List (Op κ ν)) :
+    (∀ l : List (κ × ν), specRun cmp (mapPairs id g l) (ops.map (Op.map id g)) =
+      (mapPairs id g (specRun cmp l ops).1, (specRun cmp l ops).2.map (Out.map id g))) ∧
+    (∀ s : BT κ ν × Int, bstRun cmp (s.1.map id g, s.2) (ops.map (Op.map id g)) =
+      (((bstRun cmp s ops).1.1.map id g, (bstRun cmp s ops).1.2), (bstRun cmp s ops).2.map (Out.map id g))) ∧
+    (∀ s : AT κ ν × Int, avlRun cmp (s.1.map id g, s.2) (ops.map (Op.map id g)) =
+      (avlRun cmp s ops).map fun r => ((r.1.1.map id g, r.1.2), r.2.map (Out.map id g))) ∧
+    (∀ s : RT κ ν × Int, rbRun cmp (s.1.map id g, s.2) (ops.map (Op.map id g)) =
+      (rbRun cmp s ops).map fun r => ((r.1.1.map id g, r.1.2), r.2.map (Out.map id g))) :=
+  run_natural (cmp := cmp) (cmp' := cmp) (h := id) (g := g) (fun _ _ => rfl) ops
+
+end natural
+
+/-- **the tree never alters or fabricates a user object**: after any history from the empty tree, every key object and
+    every value object that is stored in the tree, returned by a lookup, shown to a `foreach` callback or handed to a destroy
+    notifier is literally one of the key objects / value objects the caller passed in that history (`passedVals`: the values
+    given to `p_tree_insert`) — for the spec, the plain BST, and for every completed AVL / red-black run (all of them:
+    `avl_run_refines`, `rb_run_refines`).  No comparator law is needed. -/
+theorem values_never_altered (ops : List (Op κ ν)) :
+    AllObjects (· ∈ passedKeys ops) (· ∈ passedVals ops) (specRun cmp [] ops).1 (specRun cmp [] ops).2 ∧
+    AllObjects (· ∈ passedKeys ops) (· ∈ passedVals ops) (bstRun cmp (.nil, 0) ops).1.1.toList (bstRun cmp (.nil, 0) ops).2 ∧
+    (∀ s outs, avlRun cmp (.nil, 0) ops = some (s, outs) →
+      AllObjects (· ∈ passedKeys ops) (· ∈ passedVals ops) s.1.toList outs) ∧
+    (∀ s outs, rbRun cmp (.nil, 0) ops = some (s, outs) →
+      AllObjects (· ∈ passedKeys ops) (· ∈ passedVals ops) s.1.toList outs) :=
+  ⟨specRun_allObjects _ _ ops (passed_self ops), bstRun_allObjects _ _ ops (passed_self ops),
+   avlRun_allObjects _ _ ops (passed_self ops), rbRun_allObjects _ _ ops (passed_self ops)⟩
+
+/-- more generally, any property of the objects the caller passed (e.g. "is a live allocation of the caller", "has content
+    c") holds of everything stored and shown -/
+theorem objects_keep_any_property (P : κ → Prop) (Q : ν → Prop) (ops : List (Op κ ν))
+    (H : ∀ op ∈ ops, (∀ k ∈ op.keys, P k) ∧ ∀ v ∈ op.vals, Q v) :
+    AllObjects P Q (specRun cmp [] ops).1 (specRun cmp [] ops).2 ∧
+    AllObjects P Q (bstRun cmp (.nil, 0) ops).1.1.toList (bstRun cmp (.nil, 0) ops).2 ∧
+    (∀ s outs, avlRun cmp (.nil, 0) ops = some (s, outs) → AllObjects P Q s.1.toList outs) ∧
+    (∀ s outs, rbRun cmp (.nil, 0) ops = some (s, outs) → AllObjects P Q s.1.toList outs) :=
+  ⟨specRun_allObjects P Q ops H, bstRun_allObjects P Q ops H, avlRun_allObjects P Q ops H, rbRun_allObjects P Q ops H⟩
+
+/-- non-vacuity of `run_natural`: a renaming of keys that is not the identity and preserves the comparator (shift by one), with
+    a non-injective renaming of values -/
+example : ∀ a b : Nat, compare (a + 1) (b + 1) = compare a b := by
+  intro a b; simp [compare, compareOfLessAndEq]
+
+/-- non-vacuity: a history with rotations, a replace, a remove of an inner node and a clear, on the red-black tree: the values
+    shown (destroyed, looked up, visited) and the values renamed by `g = (· % 10)` -/
+example :
+    ((rbRun (κ := Nat) (ν := Nat) compare (.nil, 0)
+        [.ins 1 11, .ins 2 12, .ins 3 13, .ins 2 22, .get 3, .rem 2, .each 0, .clear]).map
+      fun r => (r.1.1.toList, r.2.flatMap Out.vals)) = some ([], [12, 13, 22, 11, 13, 11, 13]) ∧
+    ((rbRun (κ := Nat) (ν := Nat) compare (.nil, 0)
+        ([.ins 1 11, .ins 2 12, .ins 3 13, .ins 2 22, .get 3, .rem 2, .each 0, .clear].map (Op.map id (· % 10)))).map
+      fun r => (r.1.1.toList, r.2.flatMap Out.vals)) = some ([], [2, 3, 2, 1, 3, 1, 3]) ∧
+    passedVals (κ := Nat) (ν := Nat) [.ins 1 11, .ins 2 12, .ins 3 13, .ins 2 22, .get 3, .rem 2, .each 0, .clear] =
+      [11, 12, 13, 22] := by
+  decide
 
 /-- so when the inserted objects are pairwise distinct, no object is destroyed twice and no
     destroyed object is still stored -/
